@@ -54,10 +54,21 @@ def run(filter_=None, prop=None):
     res = []
     allprops = ['C%02d' % i for i in range(1, 21)]
     cases = [(p, 'refactor') for p in sorted(glob.glob(V + '/refactors/*.patch'))] + [(p, 'mutant') for p in sorted(glob.glob(V + '/mutants/*/*.patch'))]
+    if prop:
+        # the property's own share of the independent corpora: refactors written for it (must stay
+        # silent) and the confirmed seeded changes that break it (must be reported)
+        cases += [(p, 'refactor') for p in sorted(glob.glob(V + '/refactors-independent/%s-r*.patch' % prop))]
+        cases += [(p, 'mutant') for p in sorted(glob.glob(V + '/seeded/%s-*/patch.diff' % prop))]
     for patch, kind in cases:
         cid = os.path.basename(patch)[:-6]
+        if patch.endswith('/patch.diff'): cid = 'seed-' + os.path.basename(os.path.dirname(patch))
         if filter_ and filter_ not in cid: continue
-        meta = json.load(open(patch[:-6] + '.json'))
+        if os.path.exists(patch[:-6] + '.json') and not patch.endswith('/patch.diff'):
+            meta = json.load(open(patch[:-6] + '.json'))
+        elif kind == 'refactor':
+            meta = {'run': [prop]}
+        else:
+            meta = {'expect': prop}
         if prop and not (meta.get('expect') == prop or prop in meta.get('run', [])): continue
         d = worktree('run-' + cid)
         a = sh('git apply %s' % patch, cwd=d)
